@@ -251,6 +251,31 @@ func checkC07(p *Prog, r *Result, tier string) {
 		return m
 	}
 	rGC, rAM, rAC := roles(GC, 0, 1), roles(AM, 0, 2), roles(AC, 0, 2)
+	// condAt: the polarity under which node n of fn is reached of the first path condition whose normalised text (after
+	// stripping negations) is one of the given; known=false when there is none
+	condAt := func(fn *FuncNode, rl map[types.Object]string, n ast.Node, texts ...string) (val, known bool) {
+		conds, ok := pathConds(fn.Body, n)
+		if !ok {
+			return false, false
+		}
+		for _, c := range conds {
+			e, pos := unparen(c.Expr), c.Pos
+			for {
+				u, isNot := e.(*ast.UnaryExpr)
+				if !isNot || u.Op != token.NOT {
+					break
+				}
+				e, pos = unparen(u.X), !pos
+			}
+			t := normExpr(fn, e, rl, 0)
+			for _, w := range texts {
+				if t == w {
+					return pos, true
+				}
+			}
+		}
+		return false, false
+	}
 
 	// ---- AG1
 	planCall := func(fn *FuncNode, rl map[types.Object]string) (*ast.CallExpr, string, types.Object) {
@@ -329,14 +354,11 @@ func checkC07(p *Prog, r *Result, tier string) {
 					return true
 				}
 				// returns inside the `!CPUBind` (memory) branch are judged by AG2
-				inMem := false
-				side.fn.inspectBody(func(y ast.Node) bool {
-					if is, ok := y.(*ast.IfStmt); ok && strings.Contains(exprStr(is.Cond), "CPUBind") && is.Body.Pos() <= rt.Pos() && rt.End() <= is.Body.End() {
-						inMem = true
-					}
-					return true
-				})
-				if inMem {
+				rl := rGC
+				if side.fn == AC {
+					rl = rAC
+				}
+				if bind, known := condAt(side.fn, rl, rt, "$req.CPUBind"); known && !bind {
 					return true
 				}
 				n++
@@ -374,18 +396,26 @@ func checkC07(p *Prog, r *Result, tier string) {
 	r.check(qG == qA && qG == wantQ, "AG2", pk+" / memory capacity and memory admission divide the same operands", p.pos(atG), wantQ,
 		fmt.Sprintf("capacity computes `%s`, admission computes `%s`", qG, qA))
 	// zero guard: capacity `if req.MemRequest == 0 {MaxInt} else {quot}`; admission `req.MemRequest > 0 && quot < count`
+	// the saturated value is assigned exactly when MemRequest == 0 and the quotient computed exactly when it is not
 	zG := false
 	GC.inspectBody(func(n ast.Node) bool {
-		if is, ok := n.(*ast.IfStmt); ok && normExpr(GC, is.Cond, rGC, 0) == "$req.MemRequest == 0" && is.Else != nil {
-			sat := false
-			for _, st := range is.Body.List {
-				if as, ok := st.(*ast.AssignStmt); ok && isMaxIntConst(GC, as.Rhs[0]) {
-					sat = true
-				}
+		as, ok := n.(*ast.AssignStmt)
+		if !ok || len(as.Rhs) != 1 || !isMaxIntConst(GC, as.Rhs[0]) || atG == nil {
+			return true
+		}
+		zero := func(n ast.Node) (bool, bool) {
+			if v, known := condAt(GC, rGC, n, "$req.MemRequest == 0"); known {
+				return v, true
 			}
-			if eb, ok := is.Else.(*ast.BlockStmt); ok && sat && atG != nil && eb.Pos() <= atG.Pos() && atG.End() <= eb.End() {
-				zG = true
+			if v, known := condAt(GC, rGC, n, "$req.MemRequest != 0", "$req.MemRequest > 0"); known {
+				return !v, true
 			}
+			return false, false
+		}
+		z1, k1 := zero(as)
+		z2, k2 := zero(atG)
+		if k1 && k2 && z1 && !z2 {
+			zG = true
 		}
 		return true
 	})
@@ -426,50 +456,53 @@ func checkC07(p *Prog, r *Result, tier string) {
 	// ---- AG3 branch condition
 	{
 		// capacity: `if !req.CPUBind { memory … return }` ; CalculateDeploy: `if !req.CPUBind { doAllocByMemory } else { doAllocByCPU }`
+		// the memory quotient is reached exactly when CPUBind is false, the planner call exactly when it is true
 		bG := false
-		GC.inspectBody(func(n ast.Node) bool {
-			if is, ok := n.(*ast.IfStmt); ok && normExpr(GC, is.Cond, rGC, 0) == "!$req.CPUBind" && atG != nil && is.Body.Pos() <= atG.Pos() && atG.End() <= is.Body.End() {
-				// the planner call is outside this if
-				if cG != nil && !(is.Body.Pos() <= cG.Pos() && cG.End() <= is.Body.End()) {
-					if _, isRet := is.Body.List[len(is.Body.List)-1].(*ast.ReturnStmt); isRet {
-						bG = true
+		if atG != nil && cG != nil {
+			vq, kq := condAt(GC, rGC, atG, "$req.CPUBind")
+			vp, kp := condAt(GC, rGC, cG, "$req.CPUBind")
+			bG = kq && kp && !vq && vp
+		}
+		// CalculateDeploy: the memory path is reached exactly when CPUBind of the request handed on is false, the CPU path
+		// exactly when it is true (whichever way round the branch is written)
+		bindAt := func(c *ast.CallExpr) (val, found bool) {
+			reqD := CD.objOf(c.Args[2])
+			conds, ok := pathConds(CD.Body, c)
+			if !ok || reqD == nil {
+				return false, false
+			}
+			for _, cl := range conds {
+				e, pos := unparen(cl.Expr), cl.Pos
+				for {
+					u, isNot := e.(*ast.UnaryExpr)
+					if !isNot || u.Op != token.NOT {
+						break
 					}
+					e, pos = unparen(u.X), !pos
+				}
+				if sel, ok := e.(*ast.SelectorExpr); ok && sel.Sel.Name == "CPUBind" && CD.objOf(sel.X) == reqD {
+					return pos, true
 				}
 			}
-			return true
-		})
-		bD := false
-		var reqD types.Object
+			return false, false
+		}
+		memOK, cpuOK := false, false
 		CD.inspectBody(func(n ast.Node) bool {
-			is, ok := n.(*ast.IfStmt)
-			if !ok || is.Else == nil {
+			c, ok := n.(*ast.CallExpr)
+			if !ok || len(c.Args) < 3 {
 				return true
 			}
-			u, ok := unparen(is.Cond).(*ast.UnaryExpr)
-			if !ok || u.Op != token.NOT {
-				return true
+			switch CD.Callee(c) {
+			case AM.Obj:
+				v, found := bindAt(c)
+				memOK = found && !v
+			case AC.Obj:
+				v, found := bindAt(c)
+				cpuOK = found && v
 			}
-			sel, ok := unparen(u.X).(*ast.SelectorExpr)
-			if !ok || sel.Sel.Name != "CPUBind" {
-				return true
-			}
-			reqD = CD.objOf(sel.X)
-			inThen, inElse := false, false
-			ast.Inspect(is.Body, func(x ast.Node) bool {
-				if c, ok := x.(*ast.CallExpr); ok && CD.Callee(c) == AM.Obj && CD.objOf(c.Args[2]) == reqD {
-					inThen = true
-				}
-				return true
-			})
-			ast.Inspect(is.Else, func(x ast.Node) bool {
-				if c, ok := x.(*ast.CallExpr); ok && CD.Callee(c) == AC.Obj && CD.objOf(c.Args[2]) == reqD {
-					inElse = true
-				}
-				return true
-			})
-			bD = inThen && inElse
 			return true
 		})
+		bD := memOK && cpuOK
 		r.check(bG && bD, "AG3", pk+" / capacity and allocation pick the memory or the CPU path on the same condition", p.pos(CD.Decl), "!req.CPUBind → memory, else CPU plans, on both sides",
 			fmt.Sprintf("capacity branches on !req.CPUBind: %v; CalculateDeploy routes !CPUBind→doAllocByMemory, else→doAllocByCPU: %v", bG, bD))
 	}
